@@ -198,6 +198,20 @@ pub fn gen_wantlist<const S: usize>(rng: &mut Rng, pool: &[CidGeneric<S>]) -> Wa
     Wantlist { entries, full: rng.chance(1, 3) }
 }
 
+/// What the table has to answer by the documented order (C18): the most recently registered hasher that does not say
+/// unknown-code decides, the built-in table comes last.  Computed from the individual hashers, NOT by asking the table under
+/// test, so that a table that consults them differently disagrees with the model instead of feeding it.
+fn reference_hash<const S: usize>(hashers: &[ScriptHasher], std_only: &HasherTable<S>, code: u64, data: &[u8]) -> Result<multihash::Multihash<S>, beetswap::multihasher::MultihasherError> {
+    use beetswap::multihasher::{Multihasher, MultihasherError};
+    for h in hashers.iter().rev() {
+        match block_on(<ScriptHasher as Multihasher<S>>::hash(h, code, data)) {
+            Err(MultihasherError::UnknownMultihashCode) => continue,
+            r => return r,
+        }
+    }
+    block_on(std_only.hash(code, data))
+}
+
 fn one<const S: usize>(rng: &mut Rng) -> Case {
     let mut tags = vec![format!("S{S}")];
     let pool: Vec<CidGeneric<S>> = (0..3).map(|i| { let d = vec![i as u8]; honest_cid(rng, &d) }).collect();
@@ -228,6 +242,8 @@ fn one<const S: usize>(rng: &mut Rng) -> Case {
     if nh > 0 {
         tags.push(format!("hashers{nh}"));
     }
+    let reference = hashers.clone();
+    let std_only = HasherTable::<S>::new(Vec::<ScriptHasher>::new());
     let table = HasherTable::<S>::new(hashers);
 
     let nb = match rng.below(5) { 0 => 0, _ => rng.usize(4) };
@@ -257,17 +273,44 @@ fn one<const S: usize>(rng: &mut Rng) -> Case {
     tags.push(format!("parts/w{}b{}p{}", wantlist.is_some() as u8, (nb > 0) as u8, (np > 0) as u8));
     let m = Message { wantlist, payload, blockPresences: presences, pendingBytes: if rng.chance(1, 8) { rng.next() as i32 } else { 0 } };
 
+    finish::<S>(m, &reference, &std_only, &table, tags)
+}
+
+/// Big blocks (MiB size): an honest one, and the same bytes followed by a few more under the CID of the honest one — every
+/// byte of a payload must enter the hash.  Runs of equal bytes keep the Coq literal small (tools/coqterm.py run-length form).
+fn big<const S: usize>(n: usize, pad: usize) -> Case {
+    let tags = vec![format!("S{S}"), format!("big/{n}+{pad}")];
+    let mut x = vec![0u8; n];
+    x[0] = 7;
+    x[n - 1] = 9;
+    let digest = table_digest(0x12, &x).expect("sha2-256");
+    let mut prefix = vec![1u8, 0x55, 0x12, 0x20];
+    let _ = &digest;
+    let mut padded = x.clone();
+    padded.extend(std::iter::repeat(0xAAu8).take(pad));
+    if pad == 0 {
+        prefix = vec![1u8, 0x70, 0x12, 0x20];
+    }
+    let payload = vec![Block { prefix: prefix.clone(), data: x }, Block { prefix, data: padded }];
+    let m = Message { wantlist: None, payload, blockPresences: vec![], pendingBytes: 0 };
+    let reference: Vec<ScriptHasher> = Vec::new();
+    let std_only = HasherTable::<S>::new(Vec::<ScriptHasher>::new());
+    let table = HasherTable::<S>::new(Vec::<ScriptHasher>::new());
+    finish::<S>(m, &reference, &std_only, &table, tags)
+}
+
+fn finish<const S: usize>(m: Message, reference: &[ScriptHasher], std_only: &HasherTable<S>, table: &HasherTable<S>, mut tags: Vec<String>) -> Case {
     // the table's answer for every (code, data) that can be asked
     let mut answers = Vec::new();
     let mut skippable = vec![false; m.payload.len()];
     for (i, b) in m.payload.iter().enumerate() {
         for code in lenient_code(&b.prefix) {
-            let r = block_on(table.hash(code, &b.data));
+            let r = reference_hash(reference, std_only, code, &b.data);
             answers.push(J::T(vec![J::n(code), J::bytes(&b.data), hres_j(&r)]));
         }
         // harness's own opinion on "skippable": prefix parses and the table says unknown / custom
         if let Some(p) = Prefix::from_bytes(&b.prefix) {
-            let r = block_on(table.hash(p.multihash_code(), &b.data));
+            let r = reference_hash(reference, std_only, p.multihash_code(), &b.data);
             // a declared size above the capacity is fatal before the table is asked
             let declared_too_big = { let pb = p.to_bytes(); pb.len() > 2 && leb128_read(&pb).and_then(|(_, r)| leb128_read(r)).and_then(|(_, r)| leb128_read(r)).and_then(|(_, r)| leb128_read(r)).map(|(s, _)| s > S as u64).unwrap_or(false) };
             if !declared_too_big {
@@ -280,8 +323,8 @@ fn one<const S: usize>(rng: &mut Rng) -> Case {
         tags.push("has_skippable".into());
     }
 
-    let o1 = run_impl(&table, &m);
-    let o2 = run_impl(&table, &m2);
+    let o1 = run_impl(table, &m);
+    let o2 = run_impl(table, &m2);
     tags.push(match &o1 { J::C(n, _) => format!("out/{n}"), _ => String::new() });
     let nt = !m.payload.is_empty() || !m.blockPresences.is_empty();
     Case {
@@ -292,8 +335,16 @@ fn one<const S: usize>(rng: &mut Rng) -> Case {
     }
 }
 
-pub fn run(seed: u64, n: usize, _tier: &str) {
+pub fn run(seed: u64, n: usize, tier: &str) {
     let mut rng = Rng::new(seed);
+    let sizes: &[(usize, usize)] = if tier == "thorough" {
+        &[(1 << 16, 1), (1 << 20, 63), (1 << 21, 1), (1 << 21, 63), ((1 << 21) + 1, 5), (3 << 20, 63), (1 << 21, 0)]
+    } else {
+        &[(1 << 21, 63)]
+    };
+    for &(sz, pad) in sizes {
+        big::<64>(sz, pad).print();
+    }
     for i in 0..n {
         match i % 4 {
             0 | 1 => one::<64>(&mut rng).print(),
